@@ -201,6 +201,19 @@ func (e *explorer) execBlock(st *pstate, fr *frame, b, prev *ssa.BasicBlock, idx
 		if fr.visits[b] > 2 {
 			return // loop bound: each block at most twice per activation path
 		}
+		if fr.visits[b] > 1 {
+			// a new loop iteration: values (and assumed branch decisions) computed by this
+			// block in the previous iteration no longer hold
+			for _, in := range b.Instrs {
+				if v, ok := in.(ssa.Value); ok {
+					if _, isPhi := v.(*ssa.Phi); isPhi {
+						continue
+					}
+					delete(fr.vals, v)
+					delete(fr.tuples, v)
+				}
+			}
+		}
 	}
 	for i := idx; i < len(b.Instrs); i++ {
 		in := b.Instrs[i]
@@ -606,6 +619,12 @@ func (e *explorer) eval(v ssa.Value, st *pstate, fr *frame) aval {
 		switch calleeName(&x.Call) {
 		case "fmt.Errorf", "errors.New":
 			return kstr("error")
+		}
+		// packet constructors return a fresh, non-nil object
+		if g := staticCallee(&x.Call); g != nil && fnPkgPath(g) == pkPackets1 && strings.HasPrefix(g.Name(), "New") {
+			if _, isPtr := x.Type().(*types.Pointer); isPtr {
+				return kstr("obj:" + typeStr(x.Type()))
+			}
 		}
 		return unk()
 	case *ssa.Phi:
